@@ -181,3 +181,19 @@ Proof.
   - lia.
   - now apply env0_static.
 Qed.
+
+(* the side condition tneed + k <= 64 (and the fuel hypothesis for recursive types) is a limit of the MODEL, not of
+   the code: the model's fuel is 4*len+64, and a struct type with more members than that constant allows runs out
+   of fuel on a three-level value (the generated Go code has no such limit; the regenerated schemas need at most 44) *)
+Definition wide_schema : env :=
+  [ map (fun t => {| ftag := N.of_nat t; freq := false; fty := TI32; fdef := None |}) (seq 0 40)
+    ++ [ {| ftag := 40; freq := false; fty := TVec (TStruct 0); fdef := None |} ] ].
+Fixpoint wide_deep (n : nat) : val :=
+  match n with
+  | O => VStruct (repeat (VInt 0) 40 ++ [VList []])
+  | S k => VStruct (repeat (VInt 0) 40 ++ [VList [wide_deep k]])
+  end.
+Example model_fuel_limit :
+  wf_schema_b 2 wide_schema = true /\ has_type_b 20 wide_schema (TStruct 0) (wide_deep 3) = true /\
+  decode wide_schema 0 (encode wide_schema 0 (wide_deep 3)) = DFuel.
+Proof. vm_compute. repeat split; reflexivity. Qed.
